@@ -13,8 +13,10 @@ histories).  `sameTypeFree` and `flatInline` are compared exactly with the same 
 document.  Theorem oracles: a step recorded by `add_mark` / `remove_mark` on a valid document with flatInline and
 (for a RemoveMarkStep) sameTypeFree  =>  guard true (planner theorems) and the real inverse restores.
 """
-from prosemirror.transform import AddMarkStep, RemoveMarkStep
+from prosemirror.model import Schema
+from prosemirror.transform import AddMarkStep, RemoveMarkStep, Transform
 
+from ..codec import SchemaInfo
 from ..core import outcome
 
 MARK_STEPS = (AddMarkStep, RemoveMarkStep)
@@ -102,6 +104,8 @@ def compare(ctx, replay, payload, out):
         ctx.mismatch("markUndoable", replay, f"impl inverse restores={restored}", f"model guard={g}")
     if not stf:
         ctx.count("mark-step-same-type:" + ("restored" if restored else "not-restored"))
+    if planned and not flat:
+        ctx.count("mark-planned-nonflat:" + ("restored" if restored else "not-restored"))
     # planner theorems as oracles
     if planned and valid and flat and (kind == "add" or stf):
         ctx.count("mark-planned-guarded")
@@ -109,3 +113,70 @@ def compare(ctx, replay, payload, out):
             ctx.mismatch("planSteps_exact-theorem", replay, "planned step satisfies its guard", "model guard false")
         if not restored:
             ctx.mismatch("markStep_undo-theorem", replay, "guards hold", "the real inverse does not restore")
+
+
+# ---- aimed: a schema with an inline node that has content (no bundled schema has one): `flatInline` is false there,
+# the planners' steps are no longer exact (RemoveMarkStep strips the mark from the span, AddMarkStep only marks atoms),
+# and the exact guard has to say so step by step
+_SPAN = None
+
+
+def span_info():
+    global _SPAN
+    if _SPAN is None:
+        _SPAN = SchemaInfo(Schema({"nodes": {
+            "doc": {"content": "paragraph+"},
+            "paragraph": {"content": "inline*"},
+            "span": {"content": "text*", "group": "inline", "inline": True},
+            "img": {"group": "inline", "inline": True},
+            "text": {"group": "inline"},
+        }, "marks": {"em": {}, "x": {}, "m": {"excludes": "x"}, "o": {"excludes": "m"}, "c": {"excludes": "", "attrs": {"id": {}}}}}),
+            "inline-span-local")
+    return _SPAN
+
+
+def aimed(ctx, rng, gen, reqs, metas):
+    info = span_info()
+    ctx.driver.add_schema(info)
+    S = info.schema
+    names = ["em", "x", "m", "o"]
+
+    def rmarks():
+        ms = []
+        for nm in rng.sample(names, rng.randint(0, 2)):
+            ms = S.mark(nm).add_to_set(ms)
+        if rng.random() < 0.2:
+            for i in rng.sample([1, 2, 3], rng.randint(1, 2)):
+                ms = S.mark("c", {"id": i}).add_to_set(ms)
+        return ms
+
+    def rinline(depth):
+        r = rng.random()
+        if r < 0.5:
+            return S.text("".join(rng.choice("abcd") for _ in range(rng.randint(1, 3))), rmarks())
+        if r < 0.65:
+            return S.node("img", None, None, rmarks())
+        return S.node("span", None, [S.text("".join(rng.choice("xyz") for _ in range(rng.randint(1, 3))), rmarks())
+                                     for _ in range(rng.randint(0, 2))], rmarks())
+
+    for _ in range(ctx.budget(40, 120)):
+        paras = [S.node("paragraph", None, [rinline(0) for _ in range(rng.randint(0, 4))]) for _ in range(rng.randint(1, 2))]
+        st, doc = outcome(lambda: S.node("doc", None, paras))
+        if st != "ok" or outcome(doc.check)[0] != "ok":
+            continue
+        size = doc.content.size
+        tr = Transform(doc)
+        for _k in range(rng.randint(1, 2)):
+            f = rng.randint(0, size)
+            t = rng.randint(f, size)
+            if rng.random() < 0.5:
+                mk = S.mark(rng.choice(names)) if rng.random() < 0.8 else S.mark("c", {"id": rng.randint(1, 3)})
+                outcome(lambda: tr.add_mark(f, t, mk))
+            else:
+                sel = rng.choice([None, S.marks[rng.choice(names + ["c"])], S.mark(rng.choice(names))])
+                outcome(lambda: tr.remove_mark(f, t, sel))
+        ctx.count("aimed-inline-span-histories")
+        for k, s_ in enumerate(tr.steps):
+            nxt = tr.docs[k + 1] if k + 1 < len(tr.docs) else tr.doc
+            if isinstance(s_, MARK_STEPS):
+                single(ctx, info, tr.docs[k], s_, nxt, reqs, metas, "aimed-inline-span", planned=True)
